@@ -1001,7 +1001,55 @@ def oracle_fresh(spec):
     return bad
 
 
-ORACLES = {'best_ks': oracle_best_ks, 'filters': oracle_filters, 'fallback': oracle_fallback, 'fresh': oracle_fresh}
+def oracle_shared_prototype(spec):
+    """ONE prototype object configured for several columns (per-column dict values that are the same instance, or distribution=instance):
+    every column must be modelled by its own fresh instance of the prototype's class, fitted to that column alone (parameters equal to an
+    independent fit of a copy of the prototype on the column), and the prototype itself stays unfitted."""
+    import copy
+    import pandas as pd
+    from copulas.multivariate import GaussianMultivariate
+    from copulas import univariate as U
+    proto = getattr(U, spec['cls'])(**spec.get('kwargs', {}))
+    rs = np.random.RandomState(spec['seed'])
+    cols = spec['columns']
+    X = pd.DataFrame({c: rs.normal(loc, sc, spec['n']) for c, loc, sc in cols}, columns=[c for c, _, _ in cols])
+    if spec['cls'] in ('GammaUnivariate', 'BetaUnivariate'):
+        X = X.abs() + 0.1
+    dist = proto if spec['how'] == 'single' else {c: proto for c in spec['shared']}
+    ref = {}
+    for c in X.columns:
+        if spec['how'] == 'single' or c in spec['shared']:
+            r = copy.deepcopy(proto)
+            with np.errstate(all='ignore'):
+                r.fit(X[c])          # the column as GaussianMultivariate hands it over (a Series)
+            ref[c] = r
+    m = GaussianMultivariate(distribution=dist, random_state=3)
+    with np.errstate(all='ignore'):
+        m.fit(X)
+    bad = []
+    seen = []
+    for c, u in zip(m.columns, m.univariates):
+        if c not in ref:
+            continue
+        if u is proto:
+            bad.append(f'column {c!r} is modelled by the caller\'s prototype object itself, not by a new instance')
+        if any(u is v for v in seen):
+            bad.append(f'column {c!r} shares its univariate object with another column')
+        seen.append(u)
+        if type(u) is not type(proto):
+            bad.append(f'column {c!r} is modelled by a {type(u).__name__}, configured {type(proto).__name__}')
+            continue
+        same, why = params_equal(u, ref[c])
+        if not same:
+            bad.append(f'column {c!r} (location {dict((a, b) for a, b, _ in cols)[c]}): fitted parameters {u.to_dict()} differ from an independent '
+                       f'fit of the configured distribution on that column {ref[c].to_dict()} ({why})')
+    if getattr(proto, 'fitted', False):
+        bad.append('the caller\'s prototype instance was fitted by GaussianMultivariate.fit')
+    return bad
+
+
+ORACLES = {'best_ks': oracle_best_ks, 'filters': oracle_filters, 'fallback': oracle_fallback, 'fresh': oracle_fresh,
+           'shared_prototype': oracle_shared_prototype}
 
 
 # ===================================================================== the check
@@ -1319,6 +1367,13 @@ def witness(ctx, rng, quick):
     for d in DIST_POOL[:3] + DIST_POOL[8:11] + DIST_POOL[16:] + [['proto', 'GaussianKDE', {'bw_method': 0.7, 'sample_size': 20}],
                                                                 ['proto', 'TruncatedGaussian', {'minimum': 0.0, 'maximum': 10.0}]]:
         run_oracle('fresh', {'dist': d}, lambda bad: 'oracle:get_instance-not-fresh', {'dist': d[:2]})
+    # (e) one prototype object configured for several columns
+    for cls, kw in (('GaussianUnivariate', {}), ('UniformUnivariate', {}), ('GammaUnivariate', {}),
+                    ('TruncatedGaussian', {'minimum': -100.0, 'maximum': 400.0})):
+        for how, shared in (('dict', ['a', 'b']), ('dict', ['c', 'a', 'b']), ('single', [])):
+            spec = {'cls': cls, 'kwargs': kw, 'how': how, 'shared': shared, 'seed': 17, 'n': 60,
+                    'columns': [['a', 0.0, 1.0], ['b', 50.0, 3.0], ['c', -20.0, 0.5]]}
+            run_oracle('shared_prototype', spec, lambda bad, how=how: f'oracle:shared-prototype:{how}', {'class': cls, 'how': how, 'shared': shared})
     return hits
 
 
